@@ -10,3 +10,4 @@ import SkoolVerif.Props.C16
 import SkoolVerif.Props.C14
 import SkoolVerif.Props.C11
 import SkoolVerif.Props.C04
+import SkoolVerif.Props.C03
